@@ -303,7 +303,14 @@ func (g *Up4Gen) dlFar(id uint32, update bool) pfcpx.FAR {
 	case 1:
 		return pfcpx.FAR{ID: id, Action: 1, HasFP: update} // DROP
 	default:
-		return pfcpx.FAR{ID: id, Action: 2, HasFP: true, Dst: "access", OHC: true, PeerIP: g.gnbs[g.R.Intn(len(g.gnbs))], TEID: g.nextTeid()}
+		f := pfcpx.FAR{ID: id, Action: 2, HasFP: true, Dst: "access", OHC: true, PeerIP: g.gnbs[g.R.Intn(len(g.gnbs))], TEID: g.nextTeid()}
+		if update && g.R.Intn(4) == 0 {
+			// Update Forwarding Parameters carry the Destination Interface only "if changed": a handover that brings the new
+			// Outer Header Creation alone
+			f.Dst = "none"
+		}
+
+		return f
 	}
 }
 
